@@ -339,6 +339,12 @@ def set_global(cache, defaults):
     vocab.register()
     S._vars = dict(defaults)
     set_cache(cache)
+    # a global store with one key (resource queries of the C06 oracle refer to keys that do not exist in it)
+    from liquer.store import MemoryStore, set_store
+    st = MemoryStore()
+    st.store("present.txt", b"present", {})
+    st.store("dir/inner.txt", b"inner", {})
+    set_store(st)
 
 
 def run_session_task(task):
